@@ -54,23 +54,64 @@ def is_wf(kind, cols):
     return all(c == cols[0] for c in cols)
 
 
+def workers_of(c):
+    """[(kind, service index)] per worker, and the first worker of every service"""
+    ws, base = [], []
+    for i, s in enumerate(c["svcs"]):
+        base.append(len(ws))
+        ws += [(s["kind"], i)] * max(1, s.get("par") or 1)
+    return ws, base
+
+
+def infer_picks(c, ws, base):
+    """which worker of its round robin served each request: the one that later sent its first row"""
+    picks = {}
+    evs = [(i, e) for i, l in enumerate(c.get("obs") or []) for e in (l or [])]
+    for i, o in enumerate(c["ops"]):
+        if o["t"] != "req":
+            continue
+        s = o["s"]
+        par = max(1, c["svcs"][s].get("par") or 1)
+        picks[o["p"]] = base[s]
+        if par == 1:
+            continue
+        kc = (o.get("cols") or [])
+        k = KEYCOL[c["svcs"][s]["kind"]]
+        first = next((r[0] for r in (kc[k] if k < len(kc) else []) or [] if r[1] > 0), None)
+        if first is None:
+            continue
+        for j, e in evs:
+            if j > i and e["t"] == "send" and base[s] <= e["s"] < base[s] + par:
+                col = (e.get("cols") or [])
+                if k < len(col) and any(r[0] <= first < r[0] + r[1] for r in (col[k] or [])):
+                    picks[o["p"]] = e["s"]
+                    break
+    return picks
+
+
 def case_to_coq(c):
-    kinds = [s["kind"] for s in c["svcs"]]
+    ws, base = workers_of(c)
+    picks = infer_picks(c, ws, base)
     reqs = {}
     ops = []
     for o in c["ops"]:
-        k = kinds[o["s"]]
         if o["t"] == "req":
+            k = c["svcs"][o["s"]]["kind"]
             reqs[o["p"]] = (k, o.get("cols"))
-            ops.append("OReq %d %s %d%%N %s (%d)%%Z" % (o["s"], KIND[k], o["p"], raw_req_coq(k, o.get("cols")), o.get("sz", 0)))
+            ops.append("OReq %d %s %d%%N %s (%d)%%Z" % (picks[o["p"]], KIND[k], o["p"], raw_req_coq(k, o.get("cols")), o.get("sz", 0)))
         elif o["t"] == "plan":
-            ops.append("OPlan %d" % o["s"])
+            s = o["s"]
+            par = max(1, c["svcs"][s].get("par") or 1)
+            if par == 1:
+                ops.append("OPlan %d" % base[s])
+            else:
+                ops.append("OPlanG %s" % coq_list([str(w) for w in range(base[s], base[s] + par)]))
         elif o["t"] == "send":
             ops.append("OSend %d" % o["s"])
         elif o["t"] == "ret":
             ops.append("ORet %d %s" % (o["s"], b(o.get("ok"))))
         elif o["t"] == "stop":
-            ops.append("OStop %d" % o["s"])
+            ops.append("OStop %d" % base[o["s"]])
     sizes = {o["p"]: o.get("sz", 0) for o in c["ops"] if o["t"] == "req"}
     obs = []
     for evs in (c.get("obs") or []):
@@ -80,13 +121,13 @@ def case_to_coq(c):
             if t == "req":
                 k, cols = reqs[e["p"]]
                 imm = "None" if e.get("imm") is None else "(Some %s)" % b(e["imm"])
-                l.append("EReq %d (PEnv %d%%N) %s %s (%d)%%Z %s" % (e["s"], e["p"], KIND[k], req_coq(k, cols), sizes[e["p"]], imm))
+                l.append("EReq %d (PEnv %d%%N) %s %s (%d)%%Z %s" % (picks[e["p"]], e["p"], KIND[k], req_coq(k, cols), sizes[e["p"]], imm))
             elif t == "dial":
                 l.append("EDial %d %s" % (e["s"], b(e["ok"])))
             elif t == "swap":
                 l.append("ESwap %d" % e["s"])
             elif t == "send":
-                k = kinds[e["s"]]
+                k = ws[e["s"]][0]
                 l.append("ESend %d %s (oblock %s)" % (e["s"], KIND[k], coq_list([runs(x) for x in (e.get("cols") or [])])))
             elif t == "done":
                 l.append("EDone %d %s" % (e["s"], b(e["ok"])))
@@ -95,8 +136,9 @@ def case_to_coq(c):
                 l.append("EResolve (PEnv %d%%N) %s %s %s" % (e["p"], KIND[k], req_coq(k, cols), b(e["ok"])))
         obs.append(coq_list(l))
     # missing observation lists (the harness stopped early) make the case a mismatch by length
-    cfg = coq_list(["(%s, %d, (%d)%%Z)" % (KIND[s["kind"]], i, s.get("maxq", 0)) for i, s in enumerate(c["svcs"])])
-    dials = coq_list([coq_list([b(x) for x in (d or [])]) for d in (c.get("dials") or [[] for _ in c["svcs"]])])
+    cfg = coq_list(["(%s, %d, (%d)%%Z)" % (KIND[k], g, c["svcs"][g].get("maxq", 0)) for (k, g) in ws])
+    dl = c.get("dials") or []
+    dials = coq_list([coq_list([b(x) for x in ((dl[i] if i < len(dl) else None) or [])]) for i in range(len(ws))])
     return ("{| c_id := (%d)%%Z; c_cfg := %s; c_attempts := %d%%N; c_dials := %s; c_drained := %s;\n     c_ops := %s;\n     c_obs := %s |}"
             % (c["id"], cfg, c.get("attempts", 1), dials, b(c.get("drained")), coq_list(ops), coq_list(obs)))
 
